@@ -535,7 +535,7 @@ fn main() {
     let mut rep = Report::new("C16", &params);
     let mut rng = Rng::new(params.seed ^ 0xC16_E1);
     let all = pool();
-    let n = params.n(60_000, 4_000_000);
+    let n = params.n(200_000, 4_000_000);
     for i in 0..n {
         if i % 256 == 0 && !rep.in_budget() {
             break;
